@@ -173,52 +173,57 @@ Definition prev_ok (size p : Z) : bool := Z.ltb 0 p && Z.ltb p size.
 (* One turn of the loop body after the `seen` test: returns the new map, the
    new seen list, the section's trailer and its /Prev. *)
 (* [f22]: true = the code as it is now (allowRepair = the section has no /Prev, first
-   subsection only); false = the code before fix F22 (the repair applies to every subsection) *)
-Definition read_section (f22 : bool) (lay : layout) (start : Z) (seen : list Z) (m : xmap)
+   subsection only); false = the code before fix F22 (the repair applies to every subsection).
+   [f39]: true = the code as it is now (the stream /XRefStm points to is decoded BEFORE the
+   table of the same section, so its entries take precedence); false = before fix F39. *)
+Definition read_section (f22 f39 : bool) (lay : layout) (start : Z) (seen : list Z) (m : xmap)
   : res (xmap * list Z * trailer * option Z) :=
   match sec_at lay start with
   | None => Err Malformed
   | Some (STable t) =>
     let allow := if f22 then match t_prev t with None => true | Some _ => false end else true in
-    let m1 := apply_table_subs m allow (negb f22) (t_subs t) in
+    let table (m : xmap) := apply_table_subs m allow (negb f22) (t_subs t) in
     match t_xrefstm t with
-    | None => Ok (m1, seen, t_trailer t, t_prev t)
+    | None => Ok (table m, seen, t_trailer t, t_prev t)
     | Some z =>
-      if zmem z seen then Ok (m1, seen, t_trailer t, t_prev t)
+      if zmem z seen then Ok (table m, seen, t_trailer t, t_prev t)
       else match sec_at lay z with
-           | Some (SStream s) => Ok (apply_stm_subs m1 (s_subs s), z :: seen, t_trailer t, t_prev t)
+           | Some (SStream s) =>
+             Ok ((if f39 then table (apply_stm_subs m (s_subs s)) else apply_stm_subs (table m) (s_subs s)),
+                 z :: seen, t_trailer t, t_prev t)
            | _ => Err Malformed
            end
     end
   | Some (SStream s) => Ok (apply_stm_subs m (s_subs s), seen, s_trailer s, s_prev s)
   end.
 
-Fixpoint read_loop (f22 : bool) (fuel : nat) (lay : layout) (size start : Z) (seen : list Z)
+Fixpoint read_loop (f22 f39 : bool) (fuel : nat) (lay : layout) (size start : Z) (seen : list Z)
          (m : xmap) (tr : option trailer) : res (xmap * trailer) :=
   match fuel with
   | O => Err OutOfFuel
   | S fuel' =>
     if zmem start seen then Ok (m, match tr with Some t => t | None => [] end)
     else
-      match read_section f22 lay start (start :: seen) m with
+      match read_section f22 f39 lay start (start :: seen) m with
       | Err c => Err c
       | Ok (m', seen', t, prev) =>
         let tr' := match tr with Some _ => tr | None => Some (keep_trailer t) end in
         match prev with
         | None => Ok (m', match tr' with Some t => t | None => [] end)
         | Some p =>
-          if prev_ok size p then read_loop f22 fuel' lay size p seen' m' tr'
+          if prev_ok size p then read_loop f22 f39 fuel' lay size p seen' m' tr'
           else Err Malformed
         end
       end
   end.
 
 (* findXRef + readXRef: `start` is the number after the last "startxref" *)
-Definition impl_read_v (f22 : bool) (lay : layout) (size start : Z) : res (xmap * trailer) :=
-  if prev_ok size start then read_loop f22 (S (length lay)) lay size start [] [] None
+Definition impl_read_v (f22 f39 : bool) (lay : layout) (size start : Z) : res (xmap * trailer) :=
+  if prev_ok size start then read_loop f22 f39 (S (length lay)) lay size start [] [] None
   else Err Malformed.
-Definition impl_read := impl_read_v true.              (* the code as it is now *)
-Definition impl_read_pre_F22 := impl_read_v false.     (* before fix F22: documentation only *)
+Definition impl_read := impl_read_v true true.              (* the code as it is now *)
+Definition impl_read_pre_F39 := impl_read_v true false.     (* before fix F39: documentation only *)
+Definition impl_read_pre_F22 := impl_read_v false false.    (* before fixes F22 and F39: documentation only *)
 
 (* ---------- Reader.get, first half: which entry answers a reference ---------- *)
 Inductive answer :=
@@ -285,14 +290,17 @@ Definition rsec_offsets (r : rsec) : list Z :=
 (* Hybrid-reference files (ISO 32000-1 7.5.8.4): the classic table is what readers that do
    not know cross-reference streams see; the objects hidden from them are marked FREE in the
    table and have their real entry in the stream /XRefStm points to.  For a reader that knows
-   cross-reference streams such a free entry does not count: the entry of /XRefStm applies. *)
+   cross-reference streams such a free entry does not count: the entry of /XRefStm applies.
+   The rule is written "the stream's entry wins"; for conforming files (hybrid_overlap_ok: a
+   number occurs in both only when the table's entry is free) nothing else can differ, and a
+   conflict between two in-use entries is outside conforming files. *)
 Fixpoint has_key (l : list (N * entry)) (n : N) : bool :=
   match l with [] => false | (k, _) :: l' => N.eqb k n || has_key l' n end.
 Definition is_free_entry (e : entry) : bool := match e with Free _ => true | _ => false end.
 Definition hidden_marker (stm : list (N * entry)) (ne : N * entry) : bool :=
   is_free_entry (snd ne) && has_key stm (fst ne).
 Definition hybrid_entries (tab stm : list (N * entry)) : list (N * entry) :=
-  filter (fun ne => negb (hidden_marker stm ne)) tab ++ stm.
+  filter (fun ne => negb (has_key stm (fst ne))) tab ++ stm.
 
 Definition rsec_revision (r : rsec) : revision :=
   match r with
@@ -403,8 +411,8 @@ Definition rsec_trips (r : rsec) : bool :=
   end.
 Definition guard (c : chain) : bool := negb (existsb rsec_trips c).
 
-(* the guard under which the reader AS IT IS NOW is correct: no hybrid section hides an
-   object (finding: the table's free marker shadows the /XRefStm entry) *)
+(* the guard under which the reader BEFORE fix F39 was correct: no hybrid section hides an
+   object (the table's free marker shadowed the /XRefStm entry) *)
 Definition rsec_hides (r : rsec) : bool :=
   match r with
   | RHybrid _ subs _ ssubs _ => existsb (hidden_marker (stm_entries ssubs)) (table_entries subs)
